@@ -105,15 +105,42 @@ class V(steps.Visitor):
         res, ncalls = check_state(root, s)
         acc.count("can_apply_calls", ncalls)
         for core, detail, cname, index in res:
-            acc.violation(core, {"text": ctx["text"], "trace": ctx["trace"], "cfg": cname, "index": index, "kind": "state"},
-                          f"{detail}  [state {SG.show(s)}]")
+            acc.violation(core, {"text": ctx["text"], "trace": ctx["trace"], "cfg": cname, "index": index, "kind": "state",
+                                 "dup_ids": ctx.get("dup_ids", False)}, f"{detail}  [state {SG.show(s)}]")
         if acc.n["states"] % 3000 == 1:
             acc.sample({"start": ctx["text"], "trace": ctx["trace"], "checked": "11 configs x every node: purity, determinism, search"})
+
+    def on_live_state(self, acc, ctx, root):
+        """after an in-place rewrite the node search must describe the CURRENT tree (same root object or not)"""
+        try:
+            s = SG.sig(root)
+        except Exception:  # noqa
+            return
+        if SG.arity_problems(s):
+            return
+        nodes = RW.inorder(root)
+        res = []
+        for cname, rule in RW.configs():
+            # first-match search asked FIRST on the rewritten live tree (before any full search refreshes anything)
+            try:
+                first = rule.find_node(root)
+                want = next((n for n in nodes if rule.can_apply_to(n)), None)
+                if first is not want:
+                    res.append((f"{cname}|find_node-not-first-match", f"returned {SG.show(SG.sig(first)) if first is not None else None}, "
+                                f"first applicable is {SG.show(SG.sig(want)) if want is not None else None}", cname, -1))
+            except Exception as e:  # noqa
+                res.append((f"{cname}|find-raises:{type(e).__name__}", repr(e)[:120], cname, -1))
+        more, ncalls = check_state(root, s)
+        res += more
+        for core, detail, cname, index in res:
+            acc.violation(core + "|after-in-place-rewrite", {"text": ctx["text"], "trace": ctx["trace"], "cfg": cname, "index": index,
+                                                            "kind": "live", "inplace": True}, f"{detail}  [live state {SG.show(s)}]")
 
     def on_transition(self, acc, ctx, root, s, cname, rule, index, node, result, change, error):
         for core, detail in judge_transition(cname, node, result, change, error, ctx.get("nb")):
             acc.violation(core, {"text": ctx["text"], "trace": ctx["trace"], "cfg": cname, "index": index, "kind": "apply",
-                                 "inplace": ctx.get("inplace", False)}, f"{detail}  [state {SG.show(s)}]")
+                                 "inplace": ctx.get("inplace", False), "dup_ids": ctx.get("dup_ids", False)},
+                          f"{detail}  [state {SG.show(s)}]")
 
 
 def run(tier, seed):
@@ -132,6 +159,13 @@ def run(tier, seed):
     if tier == "quick":
         acc.merge(steps.run(V, small, 2, "any", seed, 0, key="small"))  # closure depth 2: the same rule objects see a tree and its rewrites
     acc.merge(steps.run(V, small, "inplace", "any", seed, 0, key="small"))  # live-tree mode, 2 steps
+    # trees assembled from a piece and its clone: identical subtrees share node ids
+    from ..gen import exprs as X
+    dup = [f"{a} = {b} + {a}" for a in ("2x", "3x^2", "x + 1", "2 * y") for b in ("y", "3", "2x")]
+    dup += [f"{a} + {b} + {a}" for a in ("2x", "x^2", "4 * y", "2 + x") for b in ("y", "3")]
+    dup += [f"({a}) * ({a})" for a in ("x + 1", "2x", "x + y")] + [f"{a} + {a} = {a}" for a in ("2x", "x + 1")]
+    dup += [t for t in steps.small_texts("expr") if t.count("x") >= 2][::6]
+    acc.merge(steps.run(V, dup, "dupids", "any", seed, 0, key="dup"))
     cov = {
         "states": len(acc.keys),
         "transitions": acc.n["transitions"],
@@ -150,6 +184,8 @@ def run(tier, seed):
 
 
 def _replay_direct(case):
+    if case.get("kind") == "live" or case.get("dup_ids"):
+        return []  # reproduced by re-exploring the seed (see replay)
     if case.get("kind") == "state":
         roots = RW.run_trace(case["text"], case["trace"], scan_states=False)
         cur = roots[-1]
